@@ -101,6 +101,84 @@ pub fn run_checker(w: &Workload, m: &Mat) -> Verdict {
                 Err(e) => project_err(e),
             }
         }
+        Entry::RawOutputs => {
+            let mut cache = HashMap::new();
+            let pre = m.state.clone();
+            let post0: SimState = pre.post_view(StateMap::new());
+            let set = Arc::new(m.set.clone());
+            let out1 = match sol::check_set_predicates(
+                &(pre.clone(), post0),
+                set.clone(),
+                m.predicates.clone(),
+                m.programs.clone(),
+                config.clone(),
+                RunMode::Outputs,
+                &mut cache,
+            ) {
+                Ok(o) => o,
+                Err(e) => return project_err(e),
+            };
+            // the overlay the second pass reads through: declared mutations plus whatever the
+            // first-pass outputs decode to (an output that does not decode fails its solution)
+            let mut overlay = StateMap::new();
+            let mut raw: Vec<Vec<(essential_types::Key, essential_types::Value)>> = vec![Vec::new(); m.set.solutions.len()];
+            for s in &m.set.solutions {
+                for mu in &s.state_mutations {
+                    overlay.insert((s.predicate_to_solve.contract.0, mu.key.clone()), mu.value.clone());
+                }
+            }
+            for d in &out1.data {
+                let si = d.solution_index as usize;
+                let mut seen = std::collections::BTreeSet::new();
+                for o in &d.data {
+                    let sol::DataOutput::Memory(mem) = o;
+                    raw[si].push((vec![], mem.to_vec()));
+                    match essential_types::solution::decode::decode_mutations(mem) {
+                        Ok(ms) => {
+                            for mu in ms {
+                                if !seen.insert(mu.key.clone()) {
+                                    return Verdict::Err {
+                                        sols: [(d.solution_index, SolErr::MutDuplicate(mu.key))].into_iter().collect(),
+                                        order: vec![d.solution_index],
+                                    };
+                                }
+                                overlay.insert((m.set.solutions[si].predicate_to_solve.contract.0, mu.key), mu.value);
+                            }
+                        }
+                        Err(_) => {
+                            return Verdict::Err {
+                                sols: [(d.solution_index, SolErr::MutDecode)].into_iter().collect(),
+                                order: vec![d.solution_index],
+                            }
+                        }
+                    }
+                }
+            }
+            let post = pre.post_view(overlay);
+            match sol::check_set_predicates(
+                &(pre, post),
+                set,
+                m.predicates.clone(),
+                m.programs.clone(),
+                config,
+                RunMode::Checks,
+                &mut cache,
+            ) {
+                Ok(out2) => {
+                    for d in &out2.data {
+                        for o in &d.data {
+                            let sol::DataOutput::Memory(mem) = o;
+                            raw[d.solution_index as usize].push((vec![], mem.to_vec()));
+                        }
+                    }
+                    Verdict::Ok {
+                        gas: out1.gas.saturating_add(out2.gas),
+                        computed: raw,
+                    }
+                }
+                Err(e) => project_err(e),
+            }
+        }
         Entry::TwoModes => {
             // what the two-pass entry point does, driven from outside: the outputs pass, then the
             // checks pass over the same cache, with the harness's own post view
